@@ -104,7 +104,7 @@ def execute(case, tape):
 
 
 RUN_TIMEOUT_S = 180
-BUDGET = {"quick": (800, 75), "thorough": (20000, 900)}
+BUDGET = {"quick": (2000, 75), "thorough": (40000, 1200)}
 REAL = c22.REAL[:10] + ["ResilientAgent", "pydcop.replication.dist_ucs_hostingcosts.UCSReplication",
                         "pydcop.replication.path_utils", "pydcop.algorithms.{dsa,mgm,maxsum} "
                         "(footprints only; computations are deployed but not run)"]
